@@ -292,3 +292,10 @@ Lemma private_ip_first_byte ip b0 r : ip = b0 :: r -> to4 ip = None -> private_i
 Proof.
   intros -> E [(a & b & c & d & E' & _)|(_ & b & r' & E' & H)]; [congruence|]. injection E' as <- _. exact H.
 Qed.
+
+Lemma v6_outside_fc00_not_internal s ip b0 r :
+  parse_ip s = Some ip -> ip = b0 :: r -> to4 ip = None -> ~ (252 <= b0 <= 253) -> in_private_net ip = false.
+Proof.
+  intros Hp Hi H4 Hb. destruct (in_private_net ip) eqn:E; [|reflexivity].
+  apply (in_private_net_iff s ip Hp) in E. exfalso. apply Hb. eapply private_ip_first_byte; eassumption.
+Qed.
